@@ -24,7 +24,13 @@ type rgSig struct {
 }
 
 // fieldReads: "Type.field" for every field of a named struct type that fn (with closures) loads.
-func fieldReads(fn *ssa.Function, out map[string]bool) {
+func fieldReads(fn *ssa.Function, dst map[string]bool) {
+	out := map[string]bool{} // this function's own reads; merged into dst at the end
+	defer func() {
+		for k := range out {
+			dst[k] = true
+		}
+	}()
 	var walk func(f *ssa.Function)
 	walk = func(f *ssa.Function) {
 		for _, b := range f.Blocks {
@@ -53,6 +59,30 @@ func fieldReads(fn *ssa.Function, out map[string]bool) {
 		}
 	}
 	walk(fn)
+	// a field the function itself assigns is its product, not its input: reading it back (or no longer doing so
+	// because the value is kept in a local) says nothing
+	written := map[string]bool{}
+	var wwalk func(f *ssa.Function)
+	wwalk = func(f *ssa.Function) {
+		for _, b := range f.Blocks {
+			for _, in := range b.Instrs {
+				if st, ok := in.(*ssa.Store); ok {
+					if fa, ok := st.Addr.(*ssa.FieldAddr); ok {
+						if n := ir.NamedOf(ir.Deref(fa.X.Type())); n != nil {
+							written[n.Obj().Name()+"."+fieldOfName(fa)] = true
+						}
+					}
+				}
+			}
+		}
+		for _, an := range f.AnonFuncs {
+			wwalk(an)
+		}
+	}
+	wwalk(fn)
+	for k := range written {
+		delete(out, k)
+	}
 }
 
 // condAtom: the atom a branch condition tests and the polarity with which it tests it (cond == atom or cond == !atom);
